@@ -111,6 +111,27 @@ def r1_concrete_tags(ctx):
         else:
             ctx.check(guarded[2], R, site, "inserted iff is_compatible(index.%s .., pattern_id)" % INDEX_SOURCE[v],
                       "the type id compared for ConcreteType::%s does not come from %s" % (v, INDEX_SOURCE[v]), b.loc(guarded[0]))
+    # every kind of value is CONSIDERED for every pattern: the scan that can insert a ConcreteType variant is reached on every path through the
+    # function (an early-out by the pattern's outer shape — "functions only match callable patterns" — forgets unions that contain one)
+    nexts_b = [bi for bi, t in b.calls() if (t.get("callee") or "").endswith("Iterator::next")]
+    for v in cv:
+        ibs = inserts.get(v, [])
+        loops = []
+        for ib in ibs:
+            hs = [h for h in nexts_b if b.dominates(h, ib) and b.reaches(ib, h)]
+            if hs:
+                # innermost: the header dominated by all the others
+                h0 = hs[0]
+                for h in hs:
+                    if b.dominates(h0, h):
+                        h0 = h
+                loops.append(h0)
+        if not loops:
+            continue      # not scan-based (Integer / Binary / Reference are decided by the index lookup; covered above)
+        bad = explore(b, [0], avoid=loops, want="return")
+        ctx.check(bad is None, R, "%s|scan %s" % (b.key, v), "the scan over candidate %s values runs for every pattern" % v,
+                  "a path through compute_compatible_concrete_types skips the scan that inserts ConcreteType::%s (an early-out on the pattern's shape): a "
+                  "union or variable pattern that admits such values gets an empty row for them — IsType and mailbox filtering reject them" % v, b.loc(loops[0]))
     # row p of the IsType table is compute_compatible_concrete_types(p, ..) itself — not assembled from parts: the relation is decided for the WHOLE
     # pattern type (a variant of a recursive union checked on its own loses the enclosing type on the cycle stack and accepts anything at `^`)
     tcb = F.body("quiver_core::compatibility::compute_type_compatibility")
